@@ -24,7 +24,7 @@ CHECKS = {
             'Names pairwise distinct within 200 characters and free of whitespace (premise of the property); permutations are sampled, not enumerated.',
             "4/C03"),
     "C04": (True,
-            "metamorphic runtime monitor: many re-presentations of one record set (gap insertions, formats, wrapping, blank lines/CRLF, multi-file and stdin splits, kalign's own outputs) through the real CLI (ASan+UBSan), output bytes compared with the bare one-file FASTA run",
+            "metamorphic runtime monitor: many re-presentations of one record set (gap insertions, formats, wrapping, blank lines/CRLF, multi-file and stdin splits with stdin as pipe / socket / redirected file, kalign's own outputs) through the real CLI (ASan+UBSan), output bytes compared with the bare one-file FASTA run",
             'For each generated record set the CLI is run on the bare FASTA file and on 12 (thorough: about 20) re-presentations written by independent writers; every presentation must be accepted and give byte-identical output. Sanitizer reports and leaks on successful runs fail the check as well.',
             'Names without whitespace, residues are letters, records keep their order across parts; tab characters inside sequence lines are not generated.',
             "4/C04"),
@@ -49,12 +49,12 @@ CHECKS = {
             "Default penalties only (the property's claim); kind as detected by kalign itself.",
             "4/C08"),
     "C09": (True,
-            'exhaustive unit grid through aln_param_init plus end-to-end observation of the parameters actually used via the kv_param hook record; explicit-default and CLI-vs-library differentials',
+            'exhaustive unit grid through aln_param_init plus end-to-end observation of the parameters actually used via the kv_param hook record; explicit-default, CLI-vs-library and kalign()-vs-kalign_run differentials (array entry point with explicit, also zero, penalties)',
             'The complete grid 2 kinds x 6 type constants x (none+5 values)^3 overrides is executed against golden tables; CLI runs for every --type word and option subset record the aln_param really used by kalign_run through the hook and are compared with golden-table-plus-overrides; explicit defaults and the library constant must reproduce the default CLI output byte for byte. The unit grid is exhaustive for its (finite) space; the end-to-end part is sampled.',
             'Golden tables (ref/golden_params.json) transcribed from the shipped tables and README; float comparison with relative tolerance 1e-4.',
             "4/C09"),
     "C10": (True,
-            'snapshot monitor in the hook runtime: member gap vectors copied at every guide-tree node completion (kv_merge_end) and compared with the projection of the final alignment when kalign_run returns; structural row-length invariant at every node',
+            'snapshot monitor in the hook runtime: member gap vectors copied at every guide-tree node completion (kv_merge_end) and compared with the projection of the final alignment when kalign_run returns; structural row-length invariant at every node; the rows handed back by kalign() and written by the CLI are compared with the monitored msa',
             "For every run of the workload (UPGMA and k-means trees, four tree shapes, all types, 1/4/16 threads with injected delays) every internal node is snapshotted at completion and checked after the run: for each member residue the rank of its final column among the columns used by the node's members must equal its column at completion, and the number of used columns must equal the group's length. Held = zero differing positions over the nodes/residue positions counted in the evidence.",
             'Snapshot budget of 60M ints per run (nodes beyond it are counted as skipped); trusts rt/verif_rt.c.',
             "4/C10"),
@@ -66,7 +66,7 @@ CHECKS = {
             "Trusts the O(nm) reference in drv/bpmdrv.c and the sanitizers; pairs outside the sampled space are not covered.",
             "4/C11"),
     "C12": (True,
-            'runtime oracle on CLI output rows of duplicated sequences, premise decided by an independent semi-global edit distance (ref/reftool.c)',
+            'runtime oracle on CLI output rows of duplicated sequences, premise decided by an independent semi-global edit distance (ref/reftool.c) on the published similarity classes, which are also compared with the class table read from the running build',
             'Inputs of 2..99 sequences with duplicated members are aligned by the real binary (ASan+UBSan); whenever the independent containment premise holds, all copies must come back as identical gapped rows. Cases failing the premise are counted and skipped.',
             '13-class reduction as published; premise computed on upper-cased sequences; lengths < 5000.',
             "4/C12"),
@@ -86,7 +86,7 @@ CHECKS = {
             'MSF/Clustal grammar as stated in the property (GCG checksum formula, blocks of at most 60 columns); kind taken from msa->biotype.',
             "4/C15"),
     "C16": (True,
-            'history monitor: interleaved job scripts executed by one driver process vs each job replayed alone in a fresh process (digests of status codes, msa dumps, scores, written bytes), plus allocation accounting (--wrap malloc family) read at quiescence and LeakSanitizer, with heap-churn jobs (mostly without MALLOC_PERTURB_, which would erase the stale heap data a history leaves behind)',
+            'history monitor: interleaved job scripts executed by one driver process vs each job replayed alone in a fresh process (digests of status codes, msa dumps, scores, written bytes), plus allocation accounting (--wrap malloc family) read at quiescence and LeakSanitizer, with heap-churn jobs, same-shape call series and a hostile-allocator mode that hands freed blocks back at random with their old contents (mostly without MALLOC_PERTURB_, which would erase the stale heap data a history leaves behind)',
             "Histories of 5..60 library calls (kalign(), read of 1-2 files, run, dump, write, re-read, compare, rejected calls, 64->1->8 threads, DNA<->protein) with up to three msa-owning jobs interleaved are executed in one process; every job's digest must equal the digest of the same job alone in a fresh process, and after the last free the count of live blocks allocated from kalign code must be zero.",
             "MSF time stamp masked; allocations made inside libgomp are outside the accounting (the property's own exclusion); histories are sampled.",
             "4/C16"),
